@@ -97,15 +97,18 @@ func pipelineIndex(r *core.Run) {
 			}
 		}
 		r.Check(inOrder, "pipeline-index", ex.Name+" sends in order", site(r, ef.Pos()), "the partition's commands are queued on the connection in slice order", "the partition's commands are not sent in the order in which they were queued")
-		stored := false
-		core.Instrs(ef, func(in ssa.Instruction) {
-			if mu, isMu := in.(*ssa.MapUpdate); isMu && core.LastField(mu.Map) == "result" && mu.Key == partID {
-				if ex2, isEx := mu.Value.(*ssa.Extract); isEx {
-					if c, isC := ex2.Tuple.(*ssa.Call); isC && methodName(c) == "Exec" {
-						stored = true
+		stored := withHelpers(r.P, ef, func(g *ssa.Function, resolve func(ssa.Value) ssa.Value) bool {
+			ok := false
+			core.Instrs(g, func(in ssa.Instruction) {
+				if mu, isMu := in.(*ssa.MapUpdate); isMu && core.LastField(mu.Map) == "result" && resolve(mu.Key) == partID {
+					if ex2, isEx := resolve(mu.Value).(*ssa.Extract); isEx {
+						if c, isC := ex2.Tuple.(*ssa.Call); isC && methodName(c) == "Exec" {
+							ok = true
+						}
 					}
 				}
-			}
+			})
+			return ok
 		})
 		r.Check(stored, "pipeline-index", ex.Name+" stores the replies", site(r, ef.Pos()), "result[partID] = replies of Exec", "the replies are not stored under the partition id the futures use")
 		// the connection is the partition owner's
